@@ -38,6 +38,7 @@ func init() {
 		"sync/atomic.AddUint64":   atomicAdd,
 		"github.com/enbility/spine-go/model.writeAllowed":                 leafWriteAllowed,
 		"github.com/enbility/spine-go/model.HasIdentifiers":               leafHasIdentifiers,
+		"github.com/enbility/spine-go/model.hashKey":                      leafHashKey,
 		"(*github.com/enbility/spine-go/model.FilterData).SelectorMatch": leafSelectorMatch,
 		"reflect.DeepEqual":       deepEqualCall,
 		"errors.New":              newError,
@@ -94,6 +95,7 @@ func init() {
 // implementations for every element type.
 //   wok(x)      writeAllowed(x)                    hasid(x)   HasIdentifiers(x)
 //   selm(fd,x)  (*FilterData).SelectorMatch(&x)    for the selector held by fd
+//   hkey(x)     hashKey(x): the identifier of x as a string (content not modelled)
 func (vc *VC) leafFun(name string, argSorts []string, ret string) string {
 	nm := quoteSym("leaf:" + name + ":" + strings.Join(argSorts, ","))
 	vc.decl(fmt.Sprintf("(declare-fun %s (%s) %s)", nm, strings.Join(argSorts, " "), ret))
@@ -130,6 +132,14 @@ func leafWriteAllowed(fr *Frame, site ssa.Instruction, fn *ssa.Function, args []
 func leafHasIdentifiers(fr *Frame, site ssa.Instruction, fn *ssa.Function, args []*Term, st *State) []*Term {
 	v, srt := fr.boxedItem(site, 0, st)
 	return []*Term{app(fr.vc.leafFun("hasid", []string{srt}, "Bool"), v)}
+}
+
+func leafHashKey(fr *Frame, site ssa.Instruction, fn *ssa.Function, args []*Term, st *State) []*Term {
+	v, srt := fr.boxedItem(site, 0, st)
+	k := app(fr.vc.leafFun("hkey", []string{srt}, "Int"), v)
+	// a string value
+	fr.vc.assume(st.guard, mkAnd(app("<=", leaf("0"), app("strlen", k)), mkEq(mkEq(app("strlen", k), leaf("0")), mkEq(k, leaf("0")))))
+	return []*Term{k}
 }
 
 func leafSelectorMatch(fr *Frame, site ssa.Instruction, fn *ssa.Function, args []*Term, st *State) []*Term {
@@ -584,7 +594,7 @@ func init() {
 		return []*Term{app("indexbyte", args[0], args[1])}
 	}
 	for _, n := range []string{"math.Trunc", "math.Round", "math.Pow", "strconv.FormatFloat", "strings.IndexByte",
-		"github.com/enbility/spine-go/model.writeAllowed", "github.com/enbility/spine-go/model.HasIdentifiers",
+		"github.com/enbility/spine-go/model.writeAllowed", "github.com/enbility/spine-go/model.HasIdentifiers", "github.com/enbility/spine-go/model.hashKey",
 		"(*github.com/enbility/spine-go/model.FilterData).SelectorMatch"} {
 		specialMods[n] = nopm
 	}
